@@ -1345,6 +1345,31 @@ package kafka
 // Reader bookkeeping (sequential view: no concurrent SetOffset/Close while FetchMessage runs): a message that is handed to
 // the caller advances the reader's position to its successor, so a later SetOffset to the same position is not mistaken
 // for a no-op and the committed/lag figures follow what was delivered.
+// Reconnect at last delivered offset + 1: the offset the partition reader hands to initialize after a connection loss, a
+// leader change or a retriable error is never below the offset the last read returned (it is that offset, or the first
+// available offset when the reader had to skip forward).
+//@ func (*reader).withLogger
+//@   trusted logging only
+//@ func (*reader).withErrorLogger
+//@   trusted logging only
+//@ func (*reader).sendError
+//@   trusted hands the error to the Reader's error channel (or gives up when the context ends)
+//@ func (*reader).readOffsets
+//@   trusted asks the connection for the first and last offsets of the partition
+//@ func (*reader).run
+//@   requires !r.$positioned
+//@   assume a partition reader is created for one run: nothing has positioned it before run starts (ghost $positioned is false)
+//@   option noframe
+//@   modifies heap
+//@   callsite (*reader).initialize requires r.$positioned ==> $2 >= r.$next
+//@   callsite (*reader).initialize modifies r.$positioned, r.$next
+//@   callsite (*reader).initialize ensures result2 == nil ==> r.$positioned && r.$next == int(result1)
+//@   callsite (*reader).initialize ensures result2 != nil ==> r.$positioned == old(r.$positioned) && r.$next == old(r.$next)
+//@   callsite (*reader).read requires $2 == offset#0
+//@   callsite (*reader).read modifies r.$next
+//@   callsite (*reader).read ensures r.$next == int(result0) && r.$positioned == old(r.$positioned)
+//@   loop 0 invariant r.$positioned ==> int(offset#0) >= r.$next
+//@   loop 1 invariant r.$positioned && int(offset#0) >= r.$next
 //@ func (*Reader).activateReadLag
 //@   trusted starts the lag-reporting goroutine once
 //@ func (*Reader).getTopicPartitionOffset
